@@ -104,7 +104,7 @@ PROPERTIES = {
         clause="the rational kernel is not truncated to integers; the LLL loop returns only what passed the exact membership test. NOT decided: independence, completeness."),
     "C17": dict(
         specs=[S("SETTINGS-W"), S("SETTINGS-C"), S("ROOTS"), S("LOSSY", r"utils/expressions.py"), S("SOLVERFLAG"), S("REBUILD"), S("PARSER", r"_transform_categorical"),
-               S("ORDER", r"cond2arithm=True"), S("COND2ARITHM")],
+               S("ORDER", r"cond2arithm=True"), S("COND2ARITHM"), S("FLAGS")],
         clause="options are written only by the CLI setter and read at call time; settings<->options<->setter census; every root source is complete and approximations clear "
                "the flag; cond2arithm keeps every assignment; categorical expansion keeps index/value/probability aligned. NOT decided: equality of closed forms across settings."),
     "C19": dict(
